@@ -112,7 +112,7 @@ package keeper
 //@ forall d Str
 //@ forall s Int
 //@ modifies bank, module:amm, module:perpetual, *mtp, *ammPool, *pool
-//@ requires mtp.Custody == 0 && mtp.Liabilities == 0 && mtp.Collateral == 0
+//@ requires C09/handed-a-new-position: mtp.Custody == 0 && mtp.Liabilities == 0 && mtp.Collateral == 0
 //@ ensures C09/borrow-adds-the-position-custody-to-the-pool: err == nil && old(perpLists(pool, mtp.Position, mtp.CustodyAsset)) ==> perpCustodyOf(pool, s, d) - old(perpCustodyOf(pool, s, d)) == ite(sameBook(s, d, mtp.Position, mtp.CustodyAsset), mtp.Custody, 0)
 //@ ensures C09/borrow-adds-the-position-liabilities-to-the-pool: err == nil && old(perpLists(pool, mtp.Position, mtp.CustodyAsset)) ==> perpLiabOf(pool, s, d) - old(perpLiabOf(pool, s, d)) == ite(sameBook(s, d, mtp.Position, mtp.LiabilitiesAsset), mtp.Liabilities, 0)
 //@ ensures C09/borrow-adds-the-position-collateral-to-the-pool: err == nil && old(perpLists(pool, mtp.Position, mtp.CustodyAsset)) ==> perpCollOf(pool, s, d) - old(perpCollOf(pool, s, d)) == ite(sameBook(s, d, mtp.Position, mtp.CollateralAsset), mtp.Collateral, 0)
@@ -257,6 +257,7 @@ package keeper
 // Consolidation: the surviving position takes over exactly the amounts of the position that is removed.
 //@ func (Keeper).OpenConsolidateMergeMtp
 //@ modifies module:perpetual, *existingMtp, *newMtp
+//@ inline
 //@ ensures C09/merge-moves-the-amounts-to-the-surviving-position: err == nil ==> existingMtp.Custody == old(existingMtp.Custody) + old(newMtp.Custody) && existingMtp.Liabilities == old(existingMtp.Liabilities) + old(newMtp.Liabilities) && existingMtp.Collateral == old(existingMtp.Collateral) + old(newMtp.Collateral)
 //@ ensures C09/merge-removes-the-merged-position: err == nil ==> !mtpHas(ctx, unbech32(newMtp.Address), newMtp.Id)
 //@ ensures C09/merge-stores-the-surviving-position: err == nil && (unbech32(existingMtp.Address) != unbech32(newMtp.Address) || existingMtp.Id != newMtp.Id) ==> mtpHas(ctx, unbech32(existingMtp.Address), existingMtp.Id) && mtpRow(ctx, unbech32(existingMtp.Address), existingMtp.Id).Custody == existingMtp.Custody && mtpRow(ctx, unbech32(existingMtp.Address), existingMtp.Id).Liabilities == existingMtp.Liabilities && mtpRow(ctx, unbech32(existingMtp.Address), existingMtp.Id).Collateral == existingMtp.Collateral
